@@ -115,3 +115,19 @@ def _c18_leak(v):
     m = v["mech"]
     return v["oracle"] == "leaked" and m.get("delete_family") is False and m.get("has_payload") is True \
         and m.get("old_outside_tokens_preserved_in_order") is True
+
+
+@predicate("C11-slice-node-open-on-both-sides")
+def _c11_both_open(v):
+    m = v["mech"]
+    if m.get("slice_node_open_both_sides_non_prefix") is not True:
+        return False
+    return (v["oracle"] == "raised" and m.get("exc") == "ValueError" and str(m.get("msg", "")).startswith("Called contentMatchAt")) \
+        or v["oracle"] == "invalid-result"
+
+
+@predicate("C12-drop-point-slice-node-open-both-sides")
+def _c12_both_open(v):
+    m = v["mech"]
+    return v["oracle"] == "approved-edit-failed" and m.get("helper") == "drop_point" and m.get("slice_node_open_both_sides_non_prefix") is True \
+        and m.get("exc") == "ValueError" and str(m.get("msg", "")).startswith("Called contentMatchAt")
